@@ -151,6 +151,7 @@ PROPS = {
                rapid("TestPropBytesLegacy", 4000, 40000, memlimit="6GiB"), rapid("TestPropStructLegacy", 3000, 30000, memlimit="6GiB"),
                plain("TestDeep", shards=dict(quick=4, thorough=16), timeout=dict(quick=900, thorough=3600)),
                plain("TestTable", shards=dict(quick=8, thorough=16)),
+               plain("TestBig", shards=dict(quick=4, thorough=8)),
                fuzz("FuzzV5", 120), fuzz("FuzzLegacy", 90)],
         exhaustive_units=[],
         assumptions=COMMON_ASSUME + ["a panic is observed by recover() around the library call only; a hang is nominated by a 30 s per-case wall-clock watchdog and only a confirmation under a CPU-time limit would be reported",
